@@ -17,7 +17,11 @@
 (*           t_i of a chart whose manifest includes t_1 - plain text, an    *)
 (*           include of t_j, a tpl of a literal or of a value that includes *)
 (*           t_j, a value that runs tpl on itself - so that the texts are   *)
-(*           all call graphs over three templates through include and tpl). *)
+(*           all call graphs over three templates through include and tpl;  *)
+(*           family "layout": which of Chart.yaml / requirements.yaml /     *)
+(*           requirements.lock a chart and its vendored subchart have, and  *)
+(*           whether the subchart is a directory or an archive; family      *)
+(*           "crds": the YAML documents of one file under crds/).           *)
 (*  "store"  a release store of Recs records, each intact or damaged in     *)
 (*           one of the Damages; the specification says which records a     *)
 (*           List / Query must return.                                      *)
